@@ -1276,3 +1276,9 @@ M('lobpcg-ax-updated-without-the-direction-term', 'C17', 'cached-products-follow
   [('contrib/LOBPCGSolver.h', "            AX = AX * sparse_eVecX + ADD;", "            AX = AX * sparse_eVecX + AD;")], 'AX recombined with the previous direction block')
 M('lobpcg-bx-not-rotated-initially', 'C17', 'cached-products-follow-the-iterate',
   [('contrib/LOBPCGSolver.h', "            BX = BX * sparse_eVecX;\r\n        }", "        }")], 'X and AX rotated by the first Rayleigh-Ritz vectors, BX not')
+# ----------------------------------------------------------------------------- F51 (session 4): compress_V interrupted by the B operator
+M('compress-v-norm-with-dimension-advertised', 'C07', 'interrupted-extension-advertises-no-dimension',
+  [('LinAlg/Arnoldi.h', "        const Index k = m_k;\n        m_k = 0;\n        m_beta = m_op.norm(m_fac_f);\n        m_k = k;\n", "        m_beta = m_op.norm(m_fac_f);\n")],
+  'reverts fix F51: a B-operator fault in the norm at the end of compress_V leaves k with the new residual and the old norm')
+M('compress-v-dimension-restored-before-the-norm', 'C07', 'interrupted-extension-advertises-no-dimension',
+  [('LinAlg/Arnoldi.h', "        m_beta = m_op.norm(m_fac_f);\n        m_k = k;\n", "        m_k = k;\n        m_beta = m_op.norm(m_fac_f);\n")], 'the dimension is advertised again before the risky call')
